@@ -310,23 +310,26 @@ int mux_headless_tail(const pktlist_t *pk, int serial, int first, buf_t *out){
    ignore streams it does not decode. */
 void mux_add_foreign(const buf_t *link, int fserial, uint64_t seed, int where, buf_t *out){
   rng_t r; rng_seed(&r,seed,0xf0e1,(uint64_t)fserial); pageinfo_t *pg=NULL; int np=page_scan(link->p,link->n,&pg);
-  int bosfirst=(where&2)!=0; where&=1;   /* bit 1: the foreign BOS page comes BEFORE the Vorbis BOS page (any order inside the BOS group is legal) */
+  int bosfirst=(where&2)!=0; int eosmid=(where&4)!=0; where&=1;   /* bit 2: the foreign stream ENDS in the middle of the link (its EOS page between two Vorbis audio pages) */ int fdone=0;   /* bit 1: the foreign BOS page comes BEFORE the Vorbis BOS page (any order inside the BOS group is legal) */
   { int audio=0; for(int i=0;i<np;i++) if(pg[i].granule!=0) audio++; if(audio<2) where=1; }   /* no foreign page between the headers and the first audio page (see DESIGN section 13) */
   ogg_stream_state fs; ogg_page fo; ogg_packet fp; unsigned char body[600]; ogg_stream_init(&fs,fserial); ogg_int64_t fg=0; long pno=0;
   memset(&fp,0,sizeof fp); memset(body,0,sizeof body); memcpy(body,"\x80theora",7); fp.packet=body; fp.bytes=42; fp.b_o_s=1; fp.packetno=pno++; ogg_stream_packetin(&fs,&fp);
   if(bosfirst){ while(ogg_stream_flush(&fs,&fo)){ buf_add(out,fo.header,fo.header_len); buf_add(out,fo.body,fo.body_len); } }
   for(int i=0;i<np;i++){
     int last=(i==np-1);
-    if(last && where==0){ /* foreign EOS before the Vorbis EOS page */
+    if(last && where==0 && !fdone){ /* foreign EOS before the Vorbis EOS page */
       memset(&fp,0,sizeof fp); for(int k=0;k<50;k++) body[k]=(unsigned char)rng_next(&r); fp.packet=body; fp.bytes=50; fp.e_o_s=1; fp.granulepos=++fg; fp.packetno=pno++; ogg_stream_packetin(&fs,&fp);
       while(ogg_stream_flush(&fs,&fo)){ buf_add(out,fo.header,fo.header_len); buf_add(out,fo.body,fo.body_len); } }
     buf_add(out,link->p+pg[i].off,pg[i].len);
     if(i==0){ while(ogg_stream_flush(&fs,&fo)){ buf_add(out,fo.header,fo.header_len); buf_add(out,fo.body,fo.body_len); } }
-    else if(!last && pg[i].granule!=0 && rng_chance(&r,0.4)){ int k=(int)rng_range(&r,1,3);
+    else if(eosmid && !fdone && !last && pg[i].granule!=0 && i>=np/2){ fdone=1;
+      memset(&fp,0,sizeof fp); for(int z=0;z<60;z++) body[z]=(unsigned char)rng_next(&r); fp.packet=body; fp.bytes=60; fp.e_o_s=1; fp.granulepos=++fg; fp.packetno=pno++; ogg_stream_packetin(&fs,&fp);
+      while(ogg_stream_flush(&fs,&fo)){ buf_add(out,fo.header,fo.header_len); buf_add(out,fo.body,fo.body_len); } }
+    else if(!fdone && !last && pg[i].granule!=0 && rng_chance(&r,0.4)){ int k=(int)rng_range(&r,1,3);
       for(int q=0;q<k;q++){ memset(&fp,0,sizeof fp); int L=(int)rng_range(&r,1,500); for(int z=0;z<L;z++) body[z]=(unsigned char)rng_next(&r); fp.packet=body; fp.bytes=L; fp.granulepos=++fg; fp.packetno=pno++; ogg_stream_packetin(&fs,&fp); }
       while(ogg_stream_flush(&fs,&fo)){ buf_add(out,fo.header,fo.header_len); buf_add(out,fo.body,fo.body_len); } }
   }
-  if(where==1){ int k=(int)rng_range(&r,1,3);
+  if(where==1 && !fdone){ int k=(int)rng_range(&r,1,3);
     for(int q=0;q<k;q++){ memset(&fp,0,sizeof fp); int L=(int)rng_range(&r,1,500); for(int z=0;z<L;z++) body[z]=(unsigned char)rng_next(&r); fp.packet=body; fp.bytes=L; fp.granulepos=++fg; fp.e_o_s=(q==k-1); fp.packetno=pno++; ogg_stream_packetin(&fs,&fp);
       while(ogg_stream_flush(&fs,&fo)){ buf_add(out,fo.header,fo.header_len); buf_add(out,fo.body,fo.body_len); } } }
   ogg_stream_clear(&fs); free(pg);
